@@ -285,6 +285,26 @@ func accScenarios(tier string) []*mc.Scenario {
 
 func isoScenarios(tier string) []*mc.Scenario {
 	var out []*mc.Scenario
+	// one resource held by two connections under different client-facing ids:
+	// its owner names it with the {cid} placeholder, the other connection by
+	// the owner's literal id; each must get its frames under its own name
+	out = append(out, &mc.Scenario{
+		Name: "iso/foreign-cid", Props: []string{"C10"}, Monitors: allMons(),
+		Init: func(w *mc.World) {
+			basicInit(w)
+			w.Svc.Model("test."+w.Conns[0].CID+".own", "n", `0`)
+		},
+		Conns: []mc.ConnSpec{
+			conn(latest, req("subscribe.test.{cid}.own", 1), req("unsubscribe.test.{cid}.own", 3)),
+			conn(latest, req("subscribe.test.{c1}.own", 1), reqp("call.test.{c1}.own.set", `{}`, 3)),
+		},
+		Threads: []mc.Thread{{Name: "svc", Ops: []mc.Op{
+			op("own.custom", 2, func(w *mc.World) { w.Svc.Custom("test." + w.Conns[0].CID + ".own") }),
+			op("own.n=1", 2, func(w *mc.World) { w.Svc.Change("test."+w.Conns[0].CID+".own", "n", `1`) }),
+			op("own.custom2", 4, func(w *mc.World) { w.Svc.Custom("test." + w.Conns[0].CID + ".own") }),
+		}}},
+		Menu: menuStd(true, false),
+	})
 	out = append(out, &mc.Scenario{
 		Name: "iso/cid-rids", Props: []string{"C10"}, Monitors: allMons(),
 		Init: func(w *mc.World) {
